@@ -68,8 +68,11 @@ case "${1:-}" in
     GORACE="halt_on_error=1" run timeout 1200 "$BIN/mcrace.$SFX" $rounds "${VERIF_SEED:-1}" "$res" 2> "$log"; rc=$?
     if [ $rc -eq 66 ] || grep -q "WARNING: DATA RACE" "$log"; then
       echo "{\"violation\":\"free-running/data-race\",\"replay\":\"$log\",\"rounds\":$rounds}" > "$res"
-    elif [ $rc -eq 67 ]; then
+    elif [ $rc -eq 67 ] || grep -q "^MISMATCH task" "$log"; then
       echo "{\"violation\":\"free-running/observation-differs-from-solo-run\",\"replay\":\"$log\",\"rounds\":$rounds}" > "$res"
+    elif [ $rc -eq 2 ] && grep -qE "^(panic:|fatal error:)" "$log"; then
+      # the process died of a panic outside the harness bodies' recover (a goroutine started by the library)
+      echo "{\"violation\":\"free-running/crash-in-library-goroutine\",\"replay\":\"$log\",\"rounds\":$rounds}" > "$res"
     elif [ $rc -ne 0 ]; then
       echo "ERROR race pass ended with status $rc"; tail -5 "$log"; exit 2
     else
